@@ -1155,8 +1155,14 @@ pub fn plan(prop: &str, tier: Tier, seeds: &[u64]) -> Vec<Sweep> {
         let heavy = oracles.c19 || oracles.c12 || oracles.c13;
         let ns: Vec<u32> = if heavy { if tier == Tier::Quick { vec![257, 4100] } else { vec![255, 256, 257, 1000, 4095, 4096, 4097, 10_000, 66_000] } } else if tier == Tier::Quick { vec![257, 4097, 70_000] } else { vec![255, 256, 257, 1000, 4095, 4096, 4097, 10_000, 65_535, 65_536, 65_537, 140_000] };
         let mut words = vec![];
+        let nmax = *ns.iter().max().unwrap();
         for &n in &ns {
             words.push(vec![Op::Fill(n, 1), Op::Merge, Op::Reopen, Op::Merge]);
+            // the largest count runs the first family only in the quick tier (a worker is busy for
+            // seconds with one such word)
+            if tier == Tier::Quick && n == nmax && n > 1000 {
+                continue;
+            }
             words.push(vec![Op::Fill(n, 1), Op::Drain(n, 2), Op::Merge, Op::Reopen, Op::Fill(n / 2, 2), Op::Merge]);
             words.push(vec![Op::Fill(n, 1), Op::Fill(n, 2), Op::Merge, Op::Merge, Op::Reopen, Op::Drain(n, 3), Op::Merge, Op::Reopen]);
         }
@@ -1243,7 +1249,10 @@ pub fn plan(prop: &str, tier: Tier, seeds: &[u64]) -> Vec<Sweep> {
         }
         "C12" => {
             let o = Oracles { c12: true, ..Default::default() };
-            deep("core", full.clone(), 4, 5, core_grid(seeds, &all_thr, &mfss), o, 0);
+            // (two recoveries in every state make this the most expensive oracle: the exact-fill
+            // file size 27 is left to the other properties' grids in the quick tier)
+            let c12_mfss: Vec<u64> = if tier == Tier::Quick { vec![0, 60, MFS_BIG] } else { mfss.to_vec() };
+            deep("core", full.clone(), 4, 5, core_grid(seeds, &all_thr, &c12_mfss), o, 0);
             after_merge(&mut sweeps, tier.pick(3, 4), o);
             scale(&mut sweeps, o);
             bulk(&mut sweeps, o);
